@@ -49,6 +49,11 @@ func genC08Value(t *rt.Tape, r *rt.Run) (value, expect, shape string) {
 	}
 	// multi-line: first line, then continuation lines with runs of empty lines
 	lines := []string{genLine(t, "v.first", true)}
+	if t.Bool(1, 30, "v.long") {
+		// a physical line longer than any default bufio buffer
+		lines[0] = strings.TrimSpace(strings.Repeat(lines[0]+" ", 1+(4200+t.Draw(5000, "v.longlen"))/(len(lines[0])+1)))
+		r.Probe("line-longer-than-4096-bytes")
+	}
 	n := t.Range(1, 5, "v.nlines")
 	for i := 0; i < n; i++ {
 		switch t.Weighted([]int{5, 2, 1, 1, 1}, "v.linekind") {
@@ -343,7 +348,7 @@ func runC08(r *rt.Run, tier string) {
 	if docFirst {
 		// documents accepted by the reader: read, then write what was read
 		r.Stats["workload.document-first"]++
-		m, doc, _ := genDoc(t, docGenOpts{MinParas: 1, MaxParas: 3, MaxFields: 4, Comments: true, AllowCRLF: true}, r)
+		m, doc, _ := genDoc(t, docGenOpts{MinParas: 1, MaxParas: 3, MaxFields: 4, Comments: true, AllowCRLF: true, AllowLong: true}, r)
 		model = m
 		got, err, task := readParas(r, doc)
 		if taskTrouble(r, "C08", "read0", task) {
@@ -542,5 +547,5 @@ func init() {
 		},
 		Assumptions: []string{"values are compared after removing one trailing newline (the statement's equality) and, for values built with the library's leading-newline multi-line marker, the marker", "lines that are exactly '.', blanks around a first line, and field names with ':' or leading '#' are outside the text format and not generated"},
 	})
-	propProbes["C08"] = []string{"transient-read-fault-while-reading-back", "encode-retried-after-transient-write-error", "encoder-mixes-structs-and-slices", "single-line-with-trailing-newline", "multi-line-with-trailing-newline", "two-empty-lines", "three-empty-lines", "four-empty-lines", "leading-marker", "three-or-more-paragraphs", "three-or-more-cycles"}
+	propProbes["C08"] = []string{"line-longer-than-4096-bytes", "transient-read-fault-while-reading-back", "encode-retried-after-transient-write-error", "encoder-mixes-structs-and-slices", "single-line-with-trailing-newline", "multi-line-with-trailing-newline", "two-empty-lines", "three-empty-lines", "four-empty-lines", "leading-marker", "three-or-more-paragraphs", "three-or-more-cycles"}
 }
